@@ -289,6 +289,18 @@ def scale_of(e_in):
     return e_in + 2 * EMASS
 
 
+# electron density of the fixture's Cu (0.141 mol/cm³, Z = 29) times migdal_constant() [1/MeV² · MeV²]
+DENSITY_FACTOR_CU = 0.141 * 6.02214076e23 * 29 * 4 * math.pi * 2.8179403262e-13 * 3.8615926796e-11 ** 2
+
+
+def brems_rounding(e_in, cut):
+    """rounding of exp(log(kmin²)) − k_dc² at the lower limit kmin² = cut² + k_dc² of the
+    SB / relativistic photon-energy samplers (k_dc² = density correction)"""
+    dc = DENSITY_FACTOR_CU * (e_in + EMASS) ** 2
+    kmin = cut * cut + dc
+    return 64 * TWO53 * kmin * max(1.0, abs(math.log(kmin)))
+
+
 def bad_rotate_axis(d):
     """incident direction in the branch of rotate() that drops the sign of sin φ"""
     s = math.sqrt(max(0.0, 1 - d[2] * d[2]))
@@ -316,10 +328,9 @@ def judge(name, line, out):
         bad("unparsable", "unparsable output " + out[:80])
         return fails
     free = cap - size
-    endpoint = "| u" in line and any(x in ("0000000000000000", "3fefffffffffffff", "3ca0000000000000")
-                                     for x in w[11:])
     fam = ("kn" if name == "kn" else "gg" if name == "gg" else "brems" if name[:2] in ("sb", "rb", "cb")
-           else "pair" if name.startswith("bh") else "ioni")
+           else "pair" if name.startswith("bh") else "ioni" if m["thr"] in ("cut", "bragg") and m["mom"]
+           else "other")
     if r["action"] == "failed":
         if m["need"] == 0 or free >= m["need"]:
             bad("spurious-failure", "failed although %d slots were free (needs %d)" % (free, m["need"]))
@@ -346,10 +357,15 @@ def judge(name, line, out):
     # finiteness / ranges
     vals = [r["dep"]] + ([r["e"]] if r["e"] is not None else []) + [s[1] for s in r["secs"]]
     if any((not math.isfinite(v)) or v < 0 for v in vals):
-        if all(math.isfinite(v) and v > -1e-15 * scale_of(e_in) for v in vals) and endpoint:
-            fails.append(("endpoint-negative-energy:" + fam, "%s: kinetic energy %.3g < 0 (rounding at "
-                          "the end of the sampling interval, uniform exactly 0 / 2^-53 / 1-2^-53)"
-                          % (name, min(vals)), dict(values=vals)))
+        # limit-rounding patterns (known findings): the sampled secondary energy is within a few
+        # ulp of a kinematic limit, so the complementary energy rounds just below zero
+        lim = {"brems": 4, "pair": 8}.get(fam, 0) * math.ulp(e_in)
+        if lim and all(math.isfinite(v) and v >= -lim for v in vals):
+            what = ("photon energy within 4 ulp(T) above the incident kinetic energy T (upper limit "
+                    "of the sampling interval)" if fam == "brems" else
+                    "ε within rounding of ε₀ = m_e/E (lower kinematic limit): ε·E − m_e < 0")
+            fails.append(("endpoint-negative-energy:" + fam, "%s: kinetic energy %.3g < 0: %s"
+                          % (name, min(vals), what), dict(values=vals)))
         else:
             bad("energy-range", "non-finite or negative energy", values=vals)
         return fails
@@ -365,10 +381,42 @@ def judge(name, line, out):
     # directions
     def unit_err(v):
         return abs(math.sqrt(sum(c * c for c in v)) - 1.0) if all(map(math.isfinite, v)) else float("inf")
+    def at_angular_limit():
+        """the polar cosine that the interactor computes is, in exact arithmetic, within rounding
+        of ±1 because the sampled energy is within a few ulp of a kinematic limit; returns a
+        description or None"""
+        if fam == "kn" and r["e"] is not None:
+            k = e_in / EMASS
+            eps0 = 1 / (1 + 2 * k)
+            eps = r["e"] / e_in
+            if eps - eps0 <= 8 * 2.0 ** -52 * eps:
+                return "ε = E'/E = %.17g within 8 ulp of ε₀ = %.17g (back-scatter limit)" % (eps, eps0)
+        if fam == "gg" and r["secs"]:
+            tau = e_in / EMASS
+            half = 0.5 * math.sqrt(tau / (tau + 2))
+            eps = r["secs"][0][1] / (e_in + 2 * EMASS)
+            de = min(eps - (0.5 - half), (0.5 + half) - eps)
+            if de <= 8 * TWO53 * max(1.0, tau + 2):
+                return "ε = %.17g within rounding of the end of [½−s, ½+s] (|cos θ| = 1)" % eps
+        if fam == "ioni" and r["secs"] and r["e"] is not None:
+            big_m, me, te = mass_in, EMASS, r["secs"][0][1]
+            if big_m == me:
+                tmax = e_in
+            else:
+                ratio, tau = me / big_m, e_in / big_m
+                tmax = 2 * me * tau * (tau + 2) / (1 + 2 * (tau + 1) * ratio + ratio * ratio)
+            p2 = e_in * e_in + 2 * big_m * e_in
+            dd = big_m * big_m + 2 * (e_in + big_m) * me + me * me
+            sin2 = dd * max(tmax - te, 0.0) / ((te + 2 * me) * p2)
+            if sin2 <= 32 * TWO53:
+                return ("delta-ray energy %.17g within rounding of the kinematic limit T_max = %.17g "
+                        "(1 − cos²θ = %.3g)" % (te, tmax, sin2))
+        return None
+
     def bad_dir(key, what):
-        if endpoint:
-            fails.append(("endpoint-nan-direction:" + fam, "%s: %s (cos θ rounds outside [-1,1] / "
-                          "0/0 when a uniform is exactly 0, 2^-53 or 1-2^-53)" % (name, what), {}))
+        why = at_angular_limit()
+        if why:
+            fails.append(("endpoint-nan-direction:" + fam, "%s: %s — %s" % (name, what, why), {}))
         else:
             bad(key, what)
     if r["action"] == "scattered" and r["e"] > 0 and unit_err(r["dir"]) > 1e-12:
@@ -386,13 +434,14 @@ def judge(name, line, out):
         if thr == "kn" and es < 1e-4:
             bad("threshold", "electron below the model's 1e-4 MeV cutoff: %.17g" % es)
         if thr == "cut" and es < cut:
-            if fam == "brems" and (es > cut * (1 - 1e-6) or (endpoint and es > cut * 0.9)):
+            if fam == "brems" and cut * cut - es * es <= brems_rounding(e_in, cut):
                 fails.append(("brems-photon-below-cut-rounding", "%s: photon %.17g below production "
-                              "cut %.17g (relative %.2g; lower end of the sampling interval)"
+                              "cut %.17g (relative %.2g): k² = exp(log(cut² + k_dc²)) − k_dc² within "
+                              "rounding of cut² (lower limit of the sampling interval)"
                               % (name, es, cut, (cut - es) / cut), {}))
-            elif fam == "ioni" and endpoint and es > cut * (1 - 1e-12):
-                fails.append(("endpoint-below-cut:ioni", "%s: delta ray %.17g below production cut "
-                              "%.17g by rounding (uniform at the end of its interval)"
+            elif fam == "ioni" and cut - es <= 4 * math.ulp(cut):
+                fails.append(("endpoint-below-cut:ioni", "%s: delta ray %.17g within 4 ulp below the "
+                              "production cut %.17g (lower limit of the sampling interval)"
                               % (name, es, cut), {}))
             else:
                 bad("threshold", "secondary %.17g below production cut %.17g" % (es, cut))
@@ -469,7 +518,7 @@ def run(ctx):
         return LEVEL
     rng = ctx.rng
     # ---- correspondence: model vs implementation, exact
-    n_corr = 20000 if quick else 400000
+    n_corr = 20000 if quick else 150000
     lines = ["consts"]
     corpus = vlib.os.path.join(vlib.CORPUS, "C04")
     if vlib.os.path.isdir(corpus):
@@ -510,7 +559,7 @@ def run(ctx):
                       % (len(diverged), diverged[0]["op"][:70]))
     # ---- impl-side oracle on every interactor (more when something is broken)
     mult = 3 if broken else 1
-    n_or = (24000 if quick else 500000) * mult
+    n_or = (24000 if quick else 200000) * mult
     names = sorted(ORACLE_MODELS)
     olines = []
     if vlib.os.path.isdir(corpus):      # replays of past findings first (corpus/C04/*.xops)
@@ -556,7 +605,7 @@ def run(ctx):
                           {"harness": "harness/interact.cc", "op": l, "impl_output": o, "info": info,
                            "incident": {"E": fl(w[4]), "dir": [fl(w[5]), fl(w[6]), fl(w[7])],
                                         "cut": fl(w[8]), "cap": int(w[2]), "size": int(w[3])}})
-    n_rot, rfails = check_rotate(rng, exe, 6000 if quick else 100000)
+    n_rot, rfails = check_rotate(rng, exe, 6000 if quick else 50000)
     for key, what, l, o, info in rfails:
         n_fail += 1
         if key in seen:
@@ -599,8 +648,10 @@ def run(ctx):
         "explanation": "proved at ℝ for the modelled interactors (see theorems); table-driven "
                        "samplers and rounding are covered by the impl-side oracle only; momentum "
                        "conservation is false for EPlusGGInteractor as written (negation proved); "
-                       "end-point uniforms (0, 2^-53, 1-2^-53) give NaN directions / 1-ulp "
-                       "threshold and sign violations in several interactors (keys endpoint-*).",
+                       "a sampled energy within a few ulp of a kinematic limit (ε₀, ε_max, "
+                       "T_max, the cut, T) gives NaN directions / 1-ulp threshold and sign "
+                       "violations in several interactors (keys endpoint-*, classified by the "
+                       "physical degeneracy of the OUTPUT, not by the script).",
     })
     return LEVEL
 
